@@ -2,6 +2,8 @@
 
 mod freezer;
 mod freezer_files;
+#[cfg(feature = "verif-hooks")]
+pub mod verif_hooks;
 #[cfg(test)]
 mod tests;
 
